@@ -524,7 +524,7 @@ class Lib:
             for g in callee.ghosts:
                 for ax in g.axioms:
                     ex.assume(st, self._spec_in(ex, st, s2, ax))
-            for k, r in enumerate(callee.requires):
+            for k, r in enumerate(callee.requires + callee.quiet_requires):
                 ex.oblige(st, "call.%s.requires%d@%s" % (short, k, site), self._spec_in(ex, st, s2, r),
                           "requires-at-call", node, r)
             # result and modified arguments
@@ -711,10 +711,18 @@ class Lib:
                     st.env = dict(saved)
                     inst = []
                     for gen in gens:
-                        n, getter = self.iteration(ex, st, gen.iter)
-                        w = ex.to_int(wit[gen.target.id])
-                        inst.append(z3.And(0 <= w, w < n))
-                        ex.assign_to(st, gen.target, getter(st, w), node)
+                        it = gen.iter
+                        w = ex.to_int(wit[gen.target.id].value(st))
+                        if (isinstance(it, ast.Call) and isinstance(it.func, ast.Name) and it.func.id == "range"
+                                and len(it.args) <= 2):
+                            ra = [ex.to_int(ex.ev(st, a_)) for a_ in it.args]
+                            lo, hi = (z3.IntVal(0), ra[0]) if len(ra) == 1 else (ra[0], ra[1])
+                            inst.append(z3.And(lo <= w, w < hi))     # the witness is the VALUE of the variable
+                            st.env[gen.target.id] = SV(INT, w)
+                        else:
+                            n, getter = self.iteration(ex, st, gen.iter)
+                            inst.append(z3.And(0 <= w, w < n))
+                            ex.assign_to(st, gen.target, getter(st, w), node)
                         for c in gen.ifs:
                             inst.append(ex.truth(ex.ev(st, c)))
                     inst.append(ex.truth(ex.ev(st, elt)))
@@ -953,7 +961,7 @@ class Lib:
         ys = ex.ev(st, node.args[1])
         wit = getattr(st, "witness", {}) or {}
         if "off" in wit:
-            return SV(BOOL, self._infix_at(ex, xs, ys, ex.to_int(wit["off"])))
+            return SV(BOOL, self._infix_at(ex, xs, ys, ex.to_int(wit["off"].value(st))))
         o = ex.bvar("off")
         return SV(BOOL, z3.Exists([o], self._infix_at(ex, xs, ys, o)))
 
